@@ -9,7 +9,7 @@
 From Coq Require Import List Arith NArith ZArith QArith Qabs Bool Permutation.
 From PrefVerif Require Import Lib.Perms Model.C1P Model.Approval.
 From PrefVerif Require Import Lib.Val Model.PQTree.
-From PrefVerif Require Proofs.C1P Proofs.Approval Proofs.PQTree.
+From PrefVerif Require Proofs.C1P Proofs.Approval Proofs.PQTree Proofs.PQTreeComplete.
 Import ListNotations.
 Import Proofs.C1P Proofs.Approval.
 Local Open Scope nat_scope.
@@ -441,6 +441,14 @@ Theorem pq_de_sound : forall elems_of, (forall F, incl (concat F) (elems_of F)) 
   de_check alts ballots (fst w) (snd w) = true.
 Proof. exact Proofs.PQTree.pq_de_sound. Qed.
 Print Assumptions pq_de_sound.
+
+(* COMPLETENESS of the mirror, relative to the step lemma (C) as an explicit premise:
+   StepC := forall f v t o, proper t -> |leaves t| <= f -> Ord t o -> (sets containing v consecutive in o) ->
+            exists t' st, set_contiguous f v t = Ok (t', st) /\ Ord t' o *)
+Theorem pq_reorder_complete_partial : Proofs.PQTreeComplete.StepC -> forall elems F,
+  (exists res, SetsOK F res) -> exists res', pq_reorder elems F = Ok res'.
+Proof. exact Proofs.PQTreeComplete.pq_reorder_complete_from_step. Qed.
+Print Assumptions pq_reorder_complete_partial.
 
 Example pq_nonvacuous :
   pq_reorder [0;1;2;3] [[0;1];[2;3];[1;2];[3];[]] = Ok [[]; [0;1]; [1;2]; [2;3]; [3]] /\
